@@ -12,6 +12,7 @@ package main
 
 import (
 	"fmt"
+	"os"
 	"regexp"
 	"runtime"
 	"strconv"
@@ -35,6 +36,40 @@ func tail(s string, n int) string {
 
 var streamRE = regexp.MustCompile(`stream=(\d+)`)
 
+// crashSite names the innermost slog-agent function on the dying goroutine's stack (vkit's CrashSite cuts method
+// names at the receiver's parenthesis).
+func crashSite(stderr string) string {
+	lines := strings.Split(stderr, "\n")
+	started := false
+	for _, l := range lines {
+		if !started {
+			if strings.HasPrefix(l, "panic:") || strings.HasPrefix(l, "fatal error:") || strings.Contains(l, "level=panic") ||
+				strings.Contains(l, "level=fatal") || strings.Contains(l, "SIGSEGV") || strings.HasPrefix(l, "unexpected fault address") {
+				started = true
+			}
+			continue
+		}
+		l = strings.TrimSpace(l)
+		if strings.HasPrefix(l, "github.com/relex/slog-agent/") {
+			if i := strings.LastIndex(l, "("); i > 0 {
+				l = l[:i]
+			}
+			return strings.TrimPrefix(l, "github.com/relex/slog-agent/")
+		}
+	}
+	return "unknown"
+}
+
+func crashWhat(summary string) string {
+	if strings.Contains(summary, `\xdb\xdb`) {
+		return " (the message shows 0xDB: bytes of a released buffer reached the dying code)"
+	}
+	if strings.Contains(summary, `\xee\xee`) {
+		return " (the message shows 0xEE: bytes of the overwritten transient input reached the dying code)"
+	}
+	return ""
+}
+
 func main() {
 	logger.SetLogLevel(logger.FatalLevel)
 	c := vkit.Start("C12", "exploration")
@@ -44,6 +79,10 @@ func main() {
 		return
 	case "agent":
 		stage2Child(c)
+		return
+	}
+	if len(os.Args) >= 3 && os.Args[1] == "--replay" {
+		replay(c, os.Args[2])
 		return
 	}
 	c.Rule("stage 1: streams of 150-700 records picked (orders, immediate repetitions, runs) from a pool of 30-70 generated syslog lines " +
@@ -112,7 +151,7 @@ func main() {
 		case r.TimedOut:
 			c.Inconclusive(fmt.Sprintf("%s: agent child exceeded its watchdog; goroutines parked in agent code: %v", r.Spec.Tag, vkit.StuckInAgent(r.Stderr)))
 		case r.Crashed() && !(r.Partial != nil && r.ExitCode == 66 && r.Signal == ""):
-			c.Violation("s2:crash:"+r.CrashSite(), fmt.Sprintf("%s: the agent process died: %s", r.Spec.Tag, r.CrashSummary()),
+			c.Violation("s2:crash:"+crashSite(r.Stderr), fmt.Sprintf("%s: the agent process died%s: %s", r.Spec.Tag, crashWhat(r.CrashSummary()), r.CrashSummary()),
 				map[string]any{"stage": 2, "args": r.Spec.Args, "last_case_logged": r.LastCase, "crash": r.CrashSummary(), "stderr_tail": tail(r.Stderr, 4000)})
 		case r.Partial == nil:
 			c.Inconclusive(fmt.Sprintf("%s: child returned no result (exit %d)", r.Spec.Tag, r.ExitCode))
@@ -123,14 +162,15 @@ func main() {
 
 	// observation floors: a run that did not see recycling, both kinds of non-output, two outputs, batches of
 	// coexisting records and layout families decides nothing about isolation
-	c.Require("s1_records", int64(c.N(60000, 800000)))
-	c.Require("s1_backbuf_reused", int64(c.N(10000, 150000)))
-	c.Require("s1_record_struct_reused", int64(c.N(20000, 300000)))
-	c.Require("s1_records_two_outputs", int64(c.N(20000, 300000)))
+	c.Require("s1_records", int64(c.N(60000, 600000)))
+	c.Require("s1_backbuf_reused", int64(c.N(10000, 100000)))
+	c.Require("s1_record_struct_reused", int64(c.N(20000, 200000)))
+	c.Require("s1_records_two_outputs", int64(c.N(20000, 200000)))
 	c.Require("s1_records_rejected", 1000)
 	c.Require("s1_records_dropped", 500)
-	c.Require("s1_streams_batched", int64(c.N(100, 1500)))
-	c.Require("s1_streams_layout_families", int64(c.N(50, 800)))
+	c.Require("s1_streams_batched", int64(c.N(100, 1000)))
+	c.Require("s1_streams_layout_families", int64(c.N(50, 500)))
+	c.Require("s1_layout_sweeps", int64(c.N(100, 1000)))
 	c.Require("s2_records_compared", int64(c.N(2000, 20000)))
 	c.Require("s2_pool_probe_recycled_buffers", 1)
 	c.Finish()
@@ -163,7 +203,7 @@ func runShard(c *vkit.Ctx, sh shard) {
 					alone = "does not die when the stream runs alone on a fresh world (needs the earlier streams of the shard)"
 				}
 			}
-			c.Violation("s1:crash:"+r.CrashSite(), fmt.Sprintf("stage 1: the pipeline process died: %s", r.CrashSummary()),
+			c.Violation("s1:crash:"+crashSite(r.Stderr), fmt.Sprintf("stage 1: the pipeline process died%s: %s", crashWhat(r.CrashSummary()), r.CrashSummary()),
 				map[string]any{"stage": 1, "shard": sh, "last_case_logged": r.LastCase, "crash": r.CrashSummary(), "confirmation": alone,
 					"stderr_tail": tail(r.Stderr, 4000)})
 			if killer < 0 {
